@@ -55,13 +55,15 @@ ModEmpty == [Module(<<"e">>, <<>>, <<>>) EXCEPT !.backs = <<Backend("rust", Pro(
 ModBare == Module(<<"d", "bare">>, <<>>, <<>>)
 (* a file name with a dot in its stem: c.v1.pyxis is module `c.v1`, next to module `c` *)
 ModDot == Module(<<"c.v1">>, <<>>, <<TypeDef("SV", "pub", <<>>)>>)
+ModDotDir == Module(<<"c.v1", "sub">>, <<>>, <<TypeDef("SD", "pub", <<>>)>>)
+ModPlainDir == Module(<<"c", "sub">>, <<>>, <<TypeDef("SP", "pub", <<>>)>>)
 
 MkInput(ptr, tree, bs, col, indir) ==
   [ptr |-> ptr, indir |-> indir,
    mods |-> CASE tree = "flat"   -> <<ModA(bs, col)>>
               [] tree = "nested" -> <<ModA(bs, col), ModB>>
               [] tree = "three"  -> <<ModC, ModA(bs, col), ModB>>
-              [] tree = "dotted" -> <<ModC, ModDot, ModA(bs, col)>>
+              [] tree = "dotted" -> <<ModC, ModDot, ModDotDir, ModPlainDir, ModA(bs, col)>>
               [] OTHER           -> <<ModA(bs, col), ModEmpty, ModBare>>]
 
 MCInit ==
